@@ -314,7 +314,8 @@ Fixpoint realize_list (alloc : mgr -> heap -> Z -> Z -> res) (l : list varr) (m 
       let minheights := Z.quot (v_rows v - 1) (v_maxacc v) + 1 in
       if minheights <=? maxmh then
         let v1 := {| v_width := v_width v; v_rows := v_rows v; v_maxacc := v_maxacc v; v_real := false; v_inmem := v_rows v |} in
-        match alloc m h (v_width v) (v_rows v) with
+        (* the fields are JDIMENSION (unsigned 32-bit) in C *)
+        match alloc m h (v_width v mod two32) (v_rows v mod two32) with
         | (m', h', Some e) => (v1 :: r, (m', h', Some e))
         | (m', h', None) =>
             let v2 := {| v_width := v_width v; v_rows := v_rows v; v_maxacc := v_maxacc v; v_real := true; v_inmem := v_rows v |} in
